@@ -17,6 +17,7 @@ from mon_code import H, CodeMonitor, hz, progs_strata
 from strict import LINE_ATTR, code_key, digest64, short, walk_codes
 
 from code_data._line_mapping import from_line_mapping, to_line_mapping
+from code_data import _line_mapping as LM
 
 LINETABLE = PY >= (3, 10)
 FIRST = 2000  # co_firstlineno of synthetic objects: keeps every line positive
@@ -238,7 +239,53 @@ class C10(CodeMonitor):
             CodeMonitor.replay(self, case, stats)
 
     # -- model line programs ------------------------------------------------------
+    def check_foreign(self, case, stats):
+        """The same line program in the *other* table format, through the six stage
+        functions with the format flag turned round, before the native judgement: both
+        formats are one code path, and a process that handled one of them must not
+        behave differently on the other (re-encoding reproduces the model's table)."""
+        f = not LINETABLE
+        if f:
+            ranges = []
+            line = FIRST
+            for b, d in case["seq"]:
+                if b == 0:
+                    continue
+                line += d
+                if ranges and ranges[-1][1] == line:
+                    ranges[-1] = (ranges[-1][0] + b, line)
+                else:
+                    ranges.append((b, line))
+            if not ranges:
+                return
+            pairs = asm_linetable(ranges, FIRST)
+            nbytes = sum(b for b, l in ranges)
+        else:
+            events = [(b, d) for b, d in case["seq"] if d]
+            if not events:
+                return
+            pairs = asm_lnotab(events)
+            nbytes = sum(b for b, d in events) + 2
+        table = pairs_to_bytes(pairs)
+        stats.evaluations += 1
+        try:
+            with horizon(60):
+                m = LM.items_to_mapping(LM.collapse_items(LM.bytes_to_items(table), f), nbytes, f)
+                back = LM.items_to_bytes(LM.expand_items(LM.mapping_to_items(m, f), f))
+        except HorizonHit:
+            stats.violation(case, "other-format-no-termination", "stage functions did not return on %s" % show(table))
+            return False
+        except Exception as e:
+            stats.violation(case, "other-format-raises:" + type(e).__name__, "%s on table %s (is_linetable=%r)" % (exc_summary(e), show(table), f))
+            return False
+        if back != table:
+            stats.violation(case, "other-format-reencode-differs", "is_linetable=%r: table %s re-encodes as %s" % (f, show(table), show(back)))
+            return False
+        stats.outcomes["other-format-ok"] += 1
+
     def check_lp(self, case, stats):
+        if self.check_foreign(case, stats) is False:
+            return
         seq = case["seq"]
         if LINETABLE:
             ranges = []
